@@ -1,12 +1,12 @@
 (* C15 - Tape clear/reset cycles and cross-tape misuse behave as documented.
    Only the property theorems (closed by `exact`), the non-vacuity example and the assumption
    audit.  Definitions: Model/TapeMachine.v (scripts over several WengertLists, registers),
-   Model/Container.v (the operations), Proofs/C15P.v.  Where a theorem is `_partial`, the full
-   statement and what is missing are spelled out in Proofs/C15P.v next to the proof and
-   repeated here. *)
+   Model/Container.v (the operations), Proofs/C15P.v, Proofs/C15Q.v.  No theorem of this file
+   is partial any more: next_unused covers every machine operation (incl. the three binary
+   batch loops and both matrix multiplications), cycle_equiv includes the frame property. *)
 From Coq Require Import List ZArith Bool Arith.
 From EasyML Require Import Base.Sx Model.Num Model.Tape Model.Container Model.TapeMachine
-  Proofs.TapeP Proofs.C15P Proofs.C06P.
+  Proofs.TapeP Proofs.C15P Proofs.C15Q Proofs.C06P.
 Import ListNotations.
 
 (* Every binary operator kind (the six function kinds) between two scalar records, or two
@@ -36,54 +36,41 @@ Theorem C15_derivs_length :
   exists t tp, obj_hist (get st a) = Some t /\ tape_of st t = Some tp /\ length d = length tp.
 Proof. exact @derivs_length. Qed.
 
-(* FULL STATEMENT (C15_next_unused): every append of every machine operation returns the
-   current length and positions strictly increase between clears.  PROVED: for every appending
-   primitive of the model (scalar record operations; batch constructors / resets; see also
-   unary_loop_positions, binary_*_positions in Proofs/C15P.v for the four batch helpers of the
-   elementwise container operations): the old tape is a prefix, the positions are old length,
-   old length + 1, ...  MISSING: record_scalar_product / matrix multiplication and the lifting
-   through `step` (both compared position by position in the correspondence check). *)
-Theorem C15_next_unused_partial :
-  forall (R : Type) (ops : numops R),
-  (forall (t : tape R) h x, rec_variable ops t h x =
-     (t ++ [mkEntry (length t) (length t) (nzero ops) (nzero ops)], mkRec x (Some h) (length t))) /\
-  (forall (t : tape R) (x : rec R) h, r_hist x = Some h -> exists e,
-     rec_reset ops t x = (t ++ [e], mkRec (r_num x) (Some h) (length t))) /\
-  (forall (t : tape R) f (x : rec R) h, r_hist x = Some h -> exists e v,
-     rec_unary ops t f x = (t ++ [e], mkRec v (Some h) (length t))) /\
-  (forall (t : tape R) f (x y : rec R) t' z h, rec_binary ops t f x y = Ok (t', z) -> r_hist z = Some h ->
-     exists e, t' = t ++ [e] /\ r_idx z = length t) /\
-  (forall (t : tape R) h tensor sh data, length data = elements sh ->
-     exists suf, fst (c_variables ops t h tensor sh data) = t ++ suf /\ length suf = elements sh /\
-       map snd (c_data (snd (c_variables ops t h tensor sh data))) = seq (length t) (elements sh)) /\
-  (forall (t : tape R) (x : cont R) h, c_hist x = Some h -> length (c_data x) = elements (c_shape x) ->
-     exists suf, fst (c_reset ops t x) = t ++ suf /\ length suf = elements (c_shape x) /\
-       map snd (c_data (snd (c_reset ops t x))) = seq (length t) (elements (c_shape x)) /\
-       map fst (c_data (snd (c_reset ops t x))) = map fst (c_data x)).
-Proof. exact @next_unused_primitives. Qed.
+(* After ANY machine step other than clear: the old tape of every list is a prefix of the new
+   one (`grows`), and every newly created object occupies the next unused positions of its list
+   (`val_fresh`): a record sits at the old length, one entry appended; the elements of a
+   container made by a constructor or an elementwise operation (all unary kinds, all binary
+   kinds in the four invocation modes) are exactly old length, old length + 1, ... in iteration
+   order, as many as entries were appended; the cells of either matrix product are strictly
+   increasing positions inside [old length, new length) (each cell is the last of the entries
+   appended for it, so they are not contiguous); reset / reset-all hand out strictly
+   increasing positions inside [old length, new length).  Positions therefore strictly increase
+   between clears. *)
+Theorem C15_next_unused :
+  forall (R : Type) (ops : numops R) (st : @state R) op st' v,
+  step ops st op = Some (st', v) -> (forall t, op <> TClear t) ->
+  grows st st' /\ val_fresh (negb (is_matmul op)) st st' v.
+Proof. exact @next_unused. Qed.
 
-Theorem C15_next_unused_elementwise_partial :
-  forall (R : Type) (ops : numops R) f records (t : tape R) t' ys,
-  unary_loop ops t f records = (t', ys) ->
-  (exists suf, t' = t ++ suf) /\ length t' = length t + length records /\
-  map snd ys = seq (length t) (length records).
-Proof. exact @unary_loop_positions. Qed.
-
-(* FULL STATEMENT (C15_cycle_equiv): running P after "clear; reset all live inputs" gives the
-   same values and derivatives as on a fresh tape, any number of cycles.  PROVED: from ANY
-   machine state (any history, any number of earlier cycles) "clear list t; reset the inputs"
-   reaches EXACTLY the state reached by "clear list t; create every input again as new
-   variable(s) with the same numbers", so every script P run afterwards returns identical
-   results.  MISSING: the frame property (registers / lists P does not touch cannot influence
-   it), i.e. the comparison with a machine that holds nothing but the new variables. *)
-Theorem C15_cycle_equiv_partial :
-  forall (R : Type) (ops : numops R) (st : @state R) t ins stf vs P,
+(* Clear/reset cycles.  From ANY machine state st (any earlier history on any number of lists,
+   any number of earlier cycles, stale objects in other registers): after "clear list t; reset
+   the inputs (any order)", a script P that is local to the inputs and list t (`local_run`: it
+   only reads the inputs or registers written by its own earlier successful operations, names no
+   other list, and contains no reset-all / new-list operation) returns step by step - values,
+   positions, derivative vectors, panics - exactly the results it returns on a brand-new machine
+   (t + 1 empty lists, no registers) on which the inputs are created as new variables /
+   variables containers with the same numbers.  P may itself contain further clears and resets
+   of its registers, so any number of cycles is covered. *)
+Theorem C15_cycle_equiv :
+  forall (R : Type) (ops : numops R) (st : @state R) t ins P st1 vs1 stf res,
   NoDup ins -> (forall a, In a ins -> input_ok t (get st a)) ->
-  tm_run ops st (TClear t :: map TReset ins) = Some (stf, vs) ->
-  exists stf' vs',
-    tm_run ops st (TClear t :: map (fun a => recreate ops t a (get st a)) ins) = Some (stf', vs') /\
-    tm_run ops stf' P = tm_run ops stf P.
-Proof. exact @run_after_cycle. Qed.
+  tm_run ops st (TClear t :: map TReset ins) = Some (st1, vs1) ->
+  local_run ops (mem ins) t st1 P ->
+  tm_run ops st1 P = Some (stf, res) ->
+  exists st2 vs2 stf2,
+    tm_run ops (init (S t)) (map (fun a => recreate ops t a (get st a)) ins) = Some (st2, vs2) /\
+    tm_run ops st2 P = Some (stf2, res).
+Proof. exact @cycle_equiv. Qed.
 
 (* non-vacuity: two lists; x on list 0, y on list 1, a 2x2 variables matrix on each.
    x * y and the matrix product across lists panic; after some work on list 0, clear + reset of
@@ -100,9 +87,31 @@ Example C15_nonvacuous :
     input_ok 0 (get st 0).
 Proof. cbv zeta. do 2 eexists. vm_compute. repeat split; reflexivity. Qed.
 
+(* non-vacuity of C15_cycle_equiv: a machine with history on two lists and a stale product in
+   register 6; inputs: the record in register 0 and the 2x2 variables matrix in register 3; the
+   script P squares x, multiplies the matrix by itself, takes derivatives, clears and resets x
+   again and recomputes *)
+Example C15_cycle_nonvacuous :
+  let sh := [(0, 2); (1, 2)] in
+  let history := [TVar 0 0 3%Z; TVar 1 1 5%Z; TCVar 3 0 false sh [1; 2; 3; 4]%Z; TBin 6 0 2 0 0; TMatmul 8 3 3] in
+  let P := [TBin 7 0 2 0 0; TMatmul 9 3 3; TDerivs 7 0; TDerivs 9 3; TClear 0; TReset 0; TBin 7 0 0 0 0; TDerivs 7 0] in
+  exists st0 vs0 st1 vs1 stf res,
+    tm_run Zops6 (init 2) history = Some (st0, vs0) /\
+    NoDup [3; 0] /\ (forall a, In a [3; 0] -> input_ok 0 (get st0 a)) /\
+    tm_run Zops6 st0 (TClear 0 :: map TReset [3; 0]) = Some (st1, vs1) /\
+    local_run Zops6 (mem [3; 0]) 0 st1 P /\
+    tm_run Zops6 st1 P = Some (stf, res) /\
+    nth 2 res Panic = Ok (VDerivs (Some [0; 0; 0; 0; 6; 1; 0; 0; 0; 0; 0; 0; 0; 0; 0; 0; 0; 0]%Z)).
+Proof.
+  cbv zeta. do 6 eexists. split; [vm_compute; reflexivity|].
+  split; [repeat constructor; cbn; intuition discriminate|].
+  split; [intros a [<-|[<-|[]]]; vm_compute; repeat split; reflexivity|].
+  split; [vm_compute; reflexivity|]. split; [vm_compute; repeat split; reflexivity|].
+  split; vm_compute; reflexivity.
+Qed.
+
 Print Assumptions C15_cross_tape_rejected.
 Print Assumptions C15_cross_tape_matmul_rejected.
 Print Assumptions C15_derivs_length.
-Print Assumptions C15_next_unused_partial.
-Print Assumptions C15_next_unused_elementwise_partial.
-Print Assumptions C15_cycle_equiv_partial.
+Print Assumptions C15_next_unused.
+Print Assumptions C15_cycle_equiv.
